@@ -15,7 +15,7 @@ TRUSTED_BASE = [
     "Axioms per theorem as printed by Print Assumptions (recorded in 'assumptions' below); allowlist is empty unless stated",
     "Hand-written Gallina model of muxide (coq/theories/Model): modelled, not verified; tied to /repo by the correspondence stage of this run",
     "Extraction: ExtrOcamlBasic only (bool/option/list/prod/unit/sumbool -> OCaml); no Extract Constant / Extract Inductive of our own",
-    "Translator gen/rust2coq.py (straight-line integer functions, named bit-field expressions and 51 fixed-layout box builders of /repo re-derived on every run; coq/translated/Agree.v proves by conversion / shallow rewriting that they are the model's definitions) for C01 C02 C04 C07 C08 C10 C11 C12 C14 C16 C18 C19",
+    "Translator gen/rust2coq.py (straight-line integer functions, named bit-field expressions and every box builder of /repo -- up to the whole moov and the fragmented media segment -- re-derived on every run; coq/translated/Agree.v proves (91 theorems: conversion, shallow rewriting, three short inductions for loops) that they are the model's definitions) for C01 C02 C04 C07 C08 C10 C11 C12 C14 C16 C18 C19",
     "Glue: ocaml/driver.ml, harness/src/main.rs, gen/*.py, bin/check (case language, hex printing, comparison, verdict)",
     "Transcribed standards (from memory; sandbox sealed): ISO/IEC 14496-12/-14/-15, AV1 5.5 + av1C, VP9 vpcC, Opus dOps, ADTS header, IEEE-754 binary64 as specified by Coq.Floats.SpecFloat, std::io::Write::write_all contract",
 ]
@@ -2129,3 +2129,7 @@ PROPS["C14"]["fams"] = PROPS["C14"]["fams"] + [("fam_exh_units", 1, 20000)]
 PROPS["C12"]["fams"] = PROPS["C12"]["fams"] + [("fam_exh_units", 1, 20000)]
 for _p in ("C13", "C17", "C06"):
     PROPS[_p]["fams"] = PROPS[_p]["fams"] + [("fam_sink_long", 12, 200)]
+PROPS["C09"]["fams"] = PROPS["C09"]["fams"] + [("fam_jitter_cancel", 45, 600)]
+# the whole moov / media segment is now re-derived from the source: the stage also backs the table properties
+for _p in ("C03", "C09", "C15"):
+    PROPS[_p]["translated"] = True
